@@ -309,6 +309,8 @@ class JSObject:
         """Get the getter function for a property, if any."""
         if key in self._getters:
             return self._getters[key]
+        if key in self._properties or key in self._setters:
+            return None  # the nearest property of that name wins: it shadows inherited accessors
         if self._prototype is not None:
             return self._prototype.get_getter(key)
         return None
@@ -317,6 +319,8 @@ class JSObject:
         """Get the setter function for a property, if any."""
         if key in self._setters:
             return self._setters[key]
+        if key in self._properties or key in self._getters:
+            return None  # shadowed by a nearer property of that name
         if self._prototype is not None:
             return self._prototype.get_setter(key)
         return None
